@@ -16,6 +16,7 @@ import (
 	stdlog "log"
 	"pgregory.net/rapid"
 	"verifharness/ev"
+	"verifharness/gen"
 )
 
 func TestMain(m *testing.M) {
@@ -172,6 +173,10 @@ func guardLib(c *ev.Collector, prop func(*rapid.T)) func(*rapid.T) {
 			}
 			if tn := fmt.Sprintf("%T", r); strings.Contains(tn, "rapid.") {
 				panic(r)
+			}
+			if rf, ok := r.(gen.Refused); ok {
+				c.Report(rt, c.Property+"|constructor-refused-legitimate-input", rf.What, map[string]any{"refused": rf.What})
+				return
 			}
 			fr := libFrame()
 			if fr == "?" {
